@@ -6,12 +6,27 @@ use beve::from_slice as beve_from_slice;
 use serde::Serialize;
 use serde::de::DeserializeOwned;
 use serde_json::Value;
+#[cfg(repe_verif)]
+use crate::verif_seam::collections::{HashMap, VecDeque};
+#[cfg(repe_verif)]
+use crate::verif_seam::net::{Shutdown, TcpStream, ToSocketAddrs};
+#[cfg(repe_verif)]
+use crate::verif_seam::sync::mpsc;
+#[cfg(repe_verif)]
+use crate::verif_seam::sync::{Arc, Mutex};
+#[cfg(repe_verif)]
+use crate::verif_seam::thread;
+#[cfg(not(repe_verif))]
 use std::collections::{HashMap, VecDeque};
 use std::io::{BufReader, BufWriter, ErrorKind, Write};
+#[cfg(not(repe_verif))]
 use std::net::{Shutdown, TcpStream, ToSocketAddrs};
 use std::sync::atomic::{AtomicU64, Ordering};
+#[cfg(not(repe_verif))]
 use std::sync::mpsc;
+#[cfg(not(repe_verif))]
 use std::sync::{Arc, Mutex};
+#[cfg(not(repe_verif))]
 use std::thread;
 use std::time::Duration;
 
@@ -83,6 +98,15 @@ impl Client {
             .lock()
             .map_err(|_| std::io::Error::other("client writer lock poisoned"))?;
         writer.get_ref().set_write_timeout(d)
+    }
+
+    /// Verification probe: number of calls currently registered as awaiting a response.
+    #[cfg(repe_verif)]
+    pub fn verif_pending_len(&self) -> usize {
+        match self.inner.pending.lock() {
+            Ok(g) => g.len(),
+            Err(p) => p.into_inner().len(),
+        }
     }
 
     fn next_request_id(&self) -> u64 {
